@@ -80,3 +80,10 @@ From V Require Import SamlSchema P_SamlSchema.
 Theorem C03_error_vocabulary_is_saml_core : generated_vocabulary = saml_vocabulary.
 Proof. exact vocabulary_is_saml. Qed.
 Print Assumptions C03_error_vocabulary_is_saml_core.
+
+(* source tie at the entry point: whatever the TRANSLATED ValidateEncodedResponse accepts satisfies every profile check *)
+From V Require Import Keys GenPreludeD GenPreludeT GenTree P_GenTree P_GenTreeProps.
+Theorem C03_source_accepted_response_satisfies_profile : forall parse dsig decrypt cfg now enc r,
+  G_ValidateEncodedResponse parse dsig (decrypt_assertions decrypt) cfg now enc = PVal (Ok (Some r)) -> ProfileOK cfg now r.
+Proof. exact source_accepted_response_satisfies_profile. Qed.
+Print Assumptions C03_source_accepted_response_satisfies_profile.
